@@ -268,15 +268,25 @@ func NewReflWorld(u *Universe, lm ListMode, b Binding) (*World, error) {
 	}
 	if b == BindRegisterLate {
 		for _, q := range []string{"{ one { __typename name } named { __typename } any { __typename } }", "{ a { name peer { name } } items { __typename } }",
-			"{ any { ... on A { name } ... on B { flag } } one { ... on B { flag } } }"} {
+			"{ any { ... on A { name } ... on B { flag } } one { ... on B { flag } } }", "{ pv { code name } pp { ... on P { code } } }"} {
 			_ = w.Root.ResolveString(q, "", nil)
 		}
 		w.TakeCalls()
 		for _, tn := range []string{"A", "B", "C", "P"} {
 			if _, ok := u.Types[tn]; ok {
-				if err := w.Root.RegisterType(refluni.NewAlt(w, tn, ""), tn); err != nil {
+				sample := refluni.NewAlt(w, tn, "")
+				if xp, isP := sample.(*refluni.XP); isP {
+					sample = *xp // (met as a value by the requests above: the same form is registered)
+				}
+				if err := w.Root.RegisterType(sample, tn); err != nil {
 					return nil, err
 				}
+			}
+		}
+		if _, ok := u.Types["P"]; ok {
+			// the field was bound to XP's method by the requests above; registered to a struct field now
+			if err := w.Root.RegisterField("P", "code", "Code2"); err != nil {
+				return nil, err
 			}
 		}
 	}
